@@ -105,6 +105,6 @@ def main(tier, seed, replay):
         ck.violation(ck.replay_file("impl", {"what": viol[0]["viol"], "Case": viol[0]}))
     elif bad:
         ck.violation(ck.replay_file("corr", {"obligation": "C19 correspondence (Cases/C19Run)", "Case": cases[bad[0]]}), False)
-    elif ck.discharged != ck.obligations:
+    elif ck.discharged != ck.obligations and not ck.violations:
         ck.violation(ck.replay_file("oblig", {"obligation": ck.cov.get("failed_obligations")}), False)
     return ck.finish()
